@@ -137,7 +137,10 @@ def witnesses():
         cl("K0", None, [f("uid", "int"), f("f0_0", "list_ref", "K2")]), cl("K1", "K0", [f("f1_0", "int")]), cl("K2", None, [f("uid", "int")])]}
     two = {"module": "dw_twowrappers", "order": ["K0", "K1"], "profile": "diagram", "classes": [
         cl("K0", None, [f("uid", "int"), f("f0_0", "opt_list_ref", "K1"), f("f0_1", "list_opt_ref", "K1")]), cl("K1", None, [f("uid", "int")])]}
-    return {"subdiagram-mutates-original": {"spec": spec, "subset": ["K0", "K1", "K2"], "ops": ["subdiagram"], "arg": 0},
+    dct = {"module": "dw_dict", "order": ["K0"], "profile": "diagram", "classes": [
+        cl("K0", None, [f("uid", "int"), f("f0_0", "dict_str_int"), f("f0_1", "opt_dict_str_int")])]}
+    return {"is-enum-raises-for-an-annotation-that-is-no-class": {"spec": dct, "subset": ["K0"], "ops": [], "arg": 0},
+            "subdiagram-mutates-original": {"spec": spec, "subset": ["K0", "K1", "K2"], "ops": ["subdiagram"], "arg": 0},
             "same-name-in-two-modules-resolved-to-the-other-class": {"handwritten": "same_name_in_two_modules", "order": 0},
             "second-missing-name-not-looked-for": {"handwritten": "same_name_in_two_modules", "order": 1},
             "type-behind-two-wrappers-not-seen": {"spec": two, "subset": ["K0", "K1"], "ops": [], "arg": 0},
